@@ -1,7 +1,8 @@
 #!/bin/bash
 # confirm_seed2.sh <id> <install-cmd> <demo-cmd>: like confirm_seed.sh but in ONE shared worktree /tmp/seed-confirm
 # (the agent's out/ directory was moved to /tmp/seedout/<id>; its own worktree is already deleted to save disk)
-id="$1"; install="$2"; demo="$3"; d="/tmp/seed-confirm"; o="/tmp/seedout/$id"
+export CARGO_PROFILE_DEV_DEBUG=line-tables-only   # the pre-built target copies were produced with it
+id="$1"; install="$2"; demo="$3"; d="${CONFIRM_DIR:-/tmp/seed-confirm}"; o="/tmp/seedout/$id"
 [ -d "$d" ] || { git -C /repo worktree add --detach "$d" HEAD >/dev/null 2>&1; cp -a /repo/target "$d/target"; }
 cd "$d" || exit 2
 rm -rf out; ln -s "$o" out
